@@ -129,11 +129,72 @@ COINCIDENCES = ["add_constant:0", "add_series:zeros", "reset:same", "reset:rever
                 "add_series:sum0", "reset:same-ends", "reset:negated", "reset:as-f4", "reset:as-i8", "reset:as-list", "reset:rolled",
                 "add_series:swap"]
 SWEEP_COIN = [(cls, n, c) for cls in ("Signal", "AccSignal") for n in (15, 16) for c in COINCIDENCES]
+def _size(obj):
+    """Number of samples as the generator sees it; an object whose values have no length (a changed library may have
+    accepted a scalar) counts as empty -- judging it is the oracle's business, not the generator's."""
+    try:
+        return len(obj.values)
+    except TypeError:
+        return 0
+
+
+def k1_tables(n):
+    """K1, generic family: arguments of the wrong type, shape or range, by mutator (positional / keyword)."""
+    bad = {"reset_values": [[None], [5], [[[1.0, 2.0], [3.0]]], ["abc"], [["a", "b", "c"]], [[[1.0, 2.0], [3.0, 4.0], [5.0, 6.0]]], [[[0.0, 0.5, 1.0, 0.5]]]],
+           "add_constant": [[None], ["x"], [[1.0, 2.0, 3.0]]],
+           "add_series": [[None], [5], [["a"] * n]],
+           "butter_pass": [[{"tu": ["a", "b"]}], [{"tu": [None, None]}], [{"tu": [0.0, 0.0]}], [{"tu": [-1.0, 2.0]}]],
+           "remove_average": [[], []], "remove_poly": [["2"], [None], [-1], [2.5]],
+           # (a negative width wraps around: on an integer record the first samples are rewritten before an empty window raises)
+           "running_average": [[None], ["3"], [0], [-2], [-4], [-3], [-7]],
+           "remove_rolling_average": [[], []],
+           "set_zero_residual_velocity": [[], []], "szrdv": [[], []],
+           "set_zero_residual_displacement": [[], []]}
+    badkw = {"remove_average": [{"section": "x"}, {"section": 2.5}],
+             "remove_rolling_average": [{"freq_window": None}, {"freq_window": 0}, {"freq_window": "5"}, {"mtype": "velocity", "freq_window": -1}],
+             "set_zero_residual_velocity": [{"timezone": {"tu": [None, 1.0]}}, {"timezone": {"tu": ["a", None]}}, {"timezone": 3.0},
+                                            {"timezone": {"tu": [0.0, 0.0]}}],
+             "szrdv": [{"timezone": {"tu": ["a", None]}}, {"timezone": 3.0}, {"timezone": {"tu": [0.0, 0.0]}},
+                       {"timezone": {"tu": [None, None]}}],
+             "set_zero_residual_displacement": [{"timezone": {"tu": [0.0, 1.0]}}],
+             "butter_pass": [{"filter_order": 0}, {"filter_order": "4"}, {"remove_gibbs": "mid", "gibbs_extra": -40}]}
+    return bad, badkw
+
+
+def _k1_sweep():
+    bad, badkw = k1_tables(4)
+    out = []
+    for cls, muts in (("Signal", MUT_SIG), ("AccSignal", MUT_ACC)):
+        bases = []
+        for m in muts:
+            if m.split(":")[0] not in bases:
+                bases.append(m.split(":")[0])
+        for b in bases:
+            for i, a in enumerate(bad.get(b, [])):
+                if a:
+                    for dtp in ("f8", "i8"):
+                        out.append((cls, b, "a", i, dtp))
+            for i in range(len(badkw.get(b, []))):
+                for dtp in ("f8", "i8"):
+                    out.append((cls, b, "kw", i, dtp))
+    return out
+
+
+# every entry of the K1 tables on a fully warm object, on a float and on an integer record
+SWEEP_K1 = _k1_sweep()
+# strict floating point at the edge of the double range: the record is scaled so that the RESULT of the mutator is the first
+# thing to overflow -- an update in place then raises after it has stored its result (D9, c04q-4)
+HUGE_MUTS = {"Signal": ["add_constant", "add_series", "add_signal", "remove_average", "remove_poly", "running_average"],
+             "AccSignal": ["add_constant", "add_series", "running_average", "remove_rolling_average:acc", "rebase_displacement",
+                           "set_zero_residual_velocity:none", "set_zero_residual_velocity:tz", "set_zero_residual_velocity:tz_open",
+                           "set_zero_residual_displacement", "szrdv:none", "szrdv:tz", "szrdv:tz_open", "correct_me"]}
+SWEEP_HUGE = [(cls, m, j) for cls in ("Signal", "AccSignal") for m in HUGE_MUTS[cls] for j in range(6)]
 # the second-object route: B is built from (or reset to) the array that A's `.values` hands out, both are read, then every
 # mutator is applied to A and to B -- memory shared between the two shows as staleness of the other one
 SWEEP_SHARE = [(cls, route, "mut:" + m) for cls, muts in (("Signal", MUT_SIG), ("AccSignal", MUT_ACC)) for route in ("new", "reset")
                for m in muts]
-N_SWEEP = len(SWEEP_STATE) + len(SWEEP_K2) + len(SWEEP_K2_READS) + len(SWEEP_NI) + len(SWEEP_ABA) + len(SWEEP_COIN) + len(SWEEP_SHARE)
+N_SWEEP = len(SWEEP_STATE) + len(SWEEP_K2) + len(SWEEP_K2_READS) + len(SWEEP_NI) + len(SWEEP_ABA) + len(SWEEP_COIN) + len(SWEEP_SHARE) + \
+    len(SWEEP_K1) + len(SWEEP_HUGE)
 REPRESENTATIVE = {"fa": ["fa_spectrum", "fa_spectrum_abs", "fa_freqs", "fa_frequencies"], "smooth": ["smooth_fa_spectrum"],
                   "vd": ["velocity", "displacement"], "pga": ["pga"], "pgv": ["pgv"], "pgd": ["pgd"],
                   "resp": ["s_a", "s_v", "s_d"]}
@@ -196,6 +257,7 @@ class C04(Profile):
             "directed": rc in (1, 3),
             "cell_index": (index // 4) % len(CELLS),
             "strict_fp": (rc >= 2 and rng.random() < 0.3),
+            "huge_draw": rng.random(),
             "n_objs": rng.choice([1, 1, 1, 2, 2, 3]),
             "cluster": rng.random() < 0.15,
             "length": rng.randint(3, 48 if thorough else 24),
@@ -207,6 +269,10 @@ class C04(Profile):
             "acc_bias": rng.choice([0.5, 0.7, 0.9]),
         }
         cfg["max_steps"] = cfg["length"] + 8
+        # strict FP with samples next to the largest finite double: sums and differences overflow, and under
+        # errstate(over='raise') an in-place update raises after it has stored its result (D9, c04q-4)
+        cfg["huge"] = bool(cfg["strict_fp"] and cfg.pop("huge_draw") < 0.3)
+        cfg.pop("huge_draw", None)
         # swarm: disable a random subset of operation kinds in some runs
         if rng.random() < 0.4:
             cfg["mut_off"] = sorted(rng.sample(MUT_ACC, rng.randint(1, len(MUT_ACC) // 2)))
@@ -237,12 +303,18 @@ class C04(Profile):
         elif index < len(SWEEP_STATE) + len(SWEEP_K2) + len(SWEEP_K2_READS) + len(SWEEP_NI) + len(SWEEP_ABA):
             cls, how, mk = SWEEP_ABA[index - len(SWEEP_STATE) - len(SWEEP_K2) - len(SWEEP_K2_READS) - len(SWEEP_NI)]
             cfg.update(run_class="sweep-state", sweep={"cls": cls, "state": [], "aba": {"how": how, "mk": mk}})
-        elif index < N_SWEEP - len(SWEEP_SHARE):
+        elif index < N_SWEEP - len(SWEEP_SHARE) - len(SWEEP_K1) - len(SWEEP_HUGE):
             cls, n, c = SWEEP_COIN[index - len(SWEEP_STATE) - len(SWEEP_K2) - len(SWEEP_K2_READS) - len(SWEEP_NI) - len(SWEEP_ABA)]
             cfg.update(run_class="sweep-state", sweep={"cls": cls, "state": [], "coin": {"n": n, "c": c}})
-        else:
-            cls, route, mk = SWEEP_SHARE[index - (N_SWEEP - len(SWEEP_SHARE))]
+        elif index < N_SWEEP - len(SWEEP_K1) - len(SWEEP_HUGE):
+            cls, route, mk = SWEEP_SHARE[index - (N_SWEEP - len(SWEEP_SHARE) - len(SWEEP_K1) - len(SWEEP_HUGE))]
             cfg.update(run_class="sweep-state", sweep={"cls": cls, "state": [], "share": {"route": route, "mk": mk}})
+        elif index < N_SWEEP - len(SWEEP_HUGE):
+            cls, b, which, i, dtp = SWEEP_K1[index - (N_SWEEP - len(SWEEP_K1) - len(SWEEP_HUGE))]
+            cfg.update(run_class="sweep-state", faults_on=True, sweep={"cls": cls, "state": [], "k1": {"m": b, "which": which, "i": i, "nd": dtp}})
+        else:
+            cls, m, j = SWEEP_HUGE[index - (N_SWEEP - len(SWEEP_HUGE))]
+            cfg.update(run_class="sweep-state", strict_fp=True, huge=True, max_steps=100, sweep={"cls": cls, "state": [], "huge": {"m": m}})
         return cfg
 
     def new_world(self, config):
@@ -341,6 +413,16 @@ class C04(Profile):
             if name == "add_signal":
                 return obj.add_signal(self._other(world, op))
             kw = {a: codec.dec(b) for a, b in op.get("kw", {}).items()}
+            if op.get("ood"):
+                # K1 with a sized argument that is not a record (strings, a table): rejecting it is the library's choice --
+                # then the object must be as it was; if it is accepted the caller puts the old record back at once
+                old = np.array(obj.values)
+                getattr(obj, name)(*[self._val(world, a) for a in op.get("a", [])], **kw)
+                try:
+                    obj.reset_values(old)
+                except MemoryError:
+                    obj.reset_values(old)
+                return None
             return getattr(obj, name)(*[self._val(world, a) for a in op.get("a", [])], **kw)
         if k == "set":
             how, v = op["how"], codec.dec(op["v"])
@@ -969,6 +1051,83 @@ class OpGen(object):
         return op
 
     # -- setup -------------------------------------------------------------------------------------
+    def _plan_huge(self, world, cls, m):
+        """Three attempts: a unit-scale record and a mutator with unit-scale arguments are rehearsed on a scratch object (no
+        overflow there); everything in the chosen mutators is linear in the record, so scaling record and arguments by
+        1.00001 * DBL_MAX / max|result| makes the result the first quantity to leave the double range."""
+        rng = self.rng
+        eq = self.profile.eqsig
+        big = float(np.finfo(float).max)
+        for att in range(3):
+            n = rng.randint(6, 40)
+            dt = rng.choice([0.05, 0.1, 0.5, 1.0, 2.0])
+            rec = gen_record(rng, n, kind=rng.choice(["noise", "sines", "ramp", "decay", "spiky"]), amp=1.0)
+            top = max([abs(v) for v in rec] + [1e-300])
+            rec = [v / top for v in rec]
+            name = "S0"
+            kw = {"smooth_fa_freqs": nd([0.5, 2.0])}
+            if cls == "AccSignal":
+                kw["response_times"] = nd([0.5, 1.0])
+            a, mkw, other = [], {}, None
+            base, var = (m.split(":") + [None])[:2]
+            if base == "add_constant":
+                a = [round(rng.choice([-1, 1]) * rng.uniform(0.05, 0.9), 3)]
+            elif base in ("add_series", "add_signal"):
+                ser = gen_record(rng, n, amp=rng.uniform(0.1, 0.9))
+                if base == "add_series":
+                    a = [ser]
+                else:
+                    other = ser
+            elif base == "remove_poly":
+                a = [rng.choice([0, 1, 2])]
+            elif base == "running_average":
+                a = [rng.choice([2, 3, 5])]
+            elif base == "remove_rolling_average":
+                mkw = {"mtype": "acc", "freq_window": round(1.0 / (dt * rng.choice([2, 3, 5])), 6)}
+            elif var in ("tz", "tz_open"):
+                t0 = round(rng.uniform(0, (n - 3) * dt), 4)
+                mkw = {"timezone": {"tu": [t0, None if var == "tz_open" else round(rng.uniform(t0 + dt, (n - 1) * dt), 4)]}}
+            # rehearsal at unit scale (under the default floating-point settings)
+            scale = big / 1.0
+            try:
+                with np.errstate(all="ignore"):
+                    scratch = getattr(eq, cls)(np.array(rec), dt)
+                    full = "set_zero_residual_displacement_and_velocity" if base == "szrdv" else base
+                    args = [np.array(x) if isinstance(x, list) else x for x in a]
+                    if other is not None:
+                        args = [getattr(eq, cls)(np.array(other), dt)]
+                    getattr(scratch, full)(*args, **{k: (tuple(v["tu"]) if isinstance(v, dict) else v) for k, v in mkw.items()})
+                    peak = float(np.max(np.abs(np.asarray(scratch.values, dtype=float))))
+                if np.isfinite(peak) and peak > 1.0 + 1e-9:
+                    scale = 1.00001 * big / peak
+                else:
+                    scale = big * rng.choice([1.0, 0.99, 0.6])
+            except Exception:  # noqa
+                scale = big * 0.99
+            vals = nd([v * scale for v in rec])
+            if att == 0:
+                self.queue.append(lambda w, vals=vals, dt=dt, kw=kw: {"op": "new", "p": "S0", "cls": cls, "values": vals, "dt": dt, "kw": dict(kw)})
+            else:
+                # (the time step cannot be changed after construction: a second object)
+                name = "S%d" % att
+                self.queue.append(lambda w, vals=vals, dt=dt, kw=kw, name=name: {"op": "new", "p": name, "cls": cls, "values": vals, "dt": dt, "kw": dict(kw)})
+            obs = list(OBS_ACC if cls == "AccSignal" else OBS_SIG)
+            rng.shuffle(obs)
+            for x in obs:
+                self.queue.append(lambda w, x=x, name=name: {"op": "read", "p": name, "x": x})
+            op = {"op": "mut", "p": name, "m": m, "a": [], "kw": dict(mkw), "no_fault": True, "guard": True}
+            if base == "add_constant":
+                op["a"] = [a[0] * scale]
+            elif base == "add_series":
+                op["a"] = [nd([v * scale for v in a[0]])]
+            elif base == "add_signal":
+                op["other_lit"] = {"cls": cls, "values": nd([v * scale for v in other]), "dt": dt}
+            else:
+                op["a"] = list(a)
+            self.queue.append(lambda w, op=op: op)
+            for x in obs[:6]:
+                self.queue.append(lambda w, x=x, name=name: {"op": "read", "p": name, "x": x})
+
     def _plan_sweep(self, world):
         rng, cfg = self.rng, self.cfg
         sw = cfg["sweep"]
@@ -996,6 +1155,37 @@ class OpGen(object):
                     self.queue.append(lambda w, who=who, x=x: {"op": "read", "p": who, "x": x})
             self.queue.append(lambda w: self.g_mut(w, b, "add_constant"))
             self.queue.append(lambda w: {"op": "read", "p": a, "x": "velocity"})
+            return
+        if "huge" in sw:
+            self._plan_huge(world, cls, sw["huge"]["m"])
+            return
+        if "k1" in sw:
+            k1 = sw["k1"]
+            n = rng.randint(9, 40)
+            rec = gen_record(rng, n, kind=rng.choice(["noise", "sines", "ints"]), amp=rng.choice([1.0, 3.0]))
+            vals = nd([float(round(v * 10)) for v in rec], "i8") if k1["nd"] == "i8" else nd(rec)
+            kw = {"smooth_fa_freqs": nd([0.5, 2.0, 8.0])}
+            if cls == "AccSignal":
+                kw["response_times"] = nd([0.1, 0.5, 1.0])
+            self.queue.append(lambda w: {"op": "new", "p": "S0", "cls": cls, "values": vals, "dt": 0.01, "kw": kw})
+            obs = list(OBS_ACC if cls == "AccSignal" else OBS_SIG)
+            rng.shuffle(obs)
+            for x in obs:
+                self.queue.append(lambda w, x=x: {"op": "read", "p": "S0", "x": x})
+            bad, badkw = k1_tables(n)
+            m = [q for q in (MUT_ACC if cls == "AccSignal" else MUT_SIG) if q.split(":")[0] == k1["m"]][0]
+            op = {"op": "mut", "p": "S0", "m": m, "a": [], "kw": {}, "k1": True, "no_fault": True}
+            if k1["which"] == "a":
+                op["a"] = list(bad[k1["m"]][k1["i"]])
+                if k1["m"] == "reset_values" and k1["i"] >= 4:
+                    op["ood"] = True
+            else:
+                op["kw"] = dict(badkw[k1["m"]][k1["i"]])
+                if k1["m"] == "butter_pass":
+                    op["a"] = [{"tu": [5.0, 30.0]}]
+            self.queue.append(lambda w: op)
+            for x in obs[:5]:
+                self.queue.append(lambda w, x=x: {"op": "read", "p": "S0", "x": x})
             return
         if "share" in sw:
             route, mk = sw["share"]["route"], sw["share"]["mk"]
@@ -1179,6 +1369,10 @@ class OpGen(object):
         rng = self.rng
         n = n if n is not None else gen_size(rng, self.cfg)
         vals = gen_record(rng, n)
+        if self.cfg.get("huge"):
+            top = max([abs(v) for v in vals] + [1e-300])
+            sc = rng.choice([1.7e308, 1.0e308, 5e307, 1e307, 1e306, 1e304]) / top
+            return nd([v * sc for v in vals])
         r = rng.random()
         if r < 0.06:
             return nd(vals, "f4")
@@ -1204,7 +1398,7 @@ class OpGen(object):
     def g_new(self, name, cls, n=None, dt=None, like=None):
         rng = self.rng
         if like is not None and self._world is not None and like in self._world.objs:
-            n, dt = len(self._world.objs[like].values), float(self._world.objs[like].dt)
+            n, dt = _size(self._world.objs[like]), float(self._world.objs[like].dt)
         op = {"op": "new", "p": name, "cls": cls, "values": self._values(n), "dt": dt or self._dt(), "kw": {}}
         if self._world is not None and rng.random() < 0.2:
             others = [q for q in sorted(self._world.objs) if q != name]
@@ -1308,6 +1502,8 @@ class OpGen(object):
         return self.g_kop(world, kname)
 
     def _guard(self, world, p):
+        if self.cfg.get("huge"):
+            return None
         obj = world.objs[p]
         try:
             v = np.asarray(obj.values, dtype=float)
@@ -1338,7 +1534,7 @@ class OpGen(object):
                                          and np.all(np.asarray(obj.values, dtype=float) % 1 == 0)))
             if small.ok and small.value and rng.random() < 0.4:
                 m = "add_series"        # small integers stored as floats: go for changes of single samples by +-1
-        n = len(obj.values)
+        n = _size(obj)
         dt = float(obj.dt)
         k1 = self.cfg["faults_on"] and rng.random() < self.cfg["k1_rate"]
         op = {"op": "mut", "p": p, "m": m, "a": [], "kw": {}}
@@ -1352,26 +1548,13 @@ class OpGen(object):
         var = m.split(":")[1] if ":" in m else None
         if k1 and rng.random() < 0.5:
             # K1, generic family: an argument of the wrong type or shape, rejected somewhere inside the operation
-            bad = {"reset_values": [[None], [5], [[[1.0, 2.0], [3.0]]], ["abc"]],
-                   "add_constant": [[None], ["x"], [[1.0, 2.0, 3.0]]],
-                   "add_series": [[None], [5], [["a"] * n]],
-                   "butter_pass": [[{"tu": ["a", "b"]}], [{"tu": [None, None]}], [{"tu": [0.0, 0.0]}], [{"tu": [-1.0, 2.0]}]],
-                   "remove_average": [[], []], "remove_poly": [["2"], [None], [-1], [2.5]],
-                   "running_average": [[None], ["3"], [0], [-2], [-4], [-3], [-7]],     # (a negative width wraps around: on an integer record the first samples are rewritten before an empty window raises)
-                   "remove_rolling_average": [[], []],
-                   "set_zero_residual_velocity": [[], []], "szrdv": [[], []],
-                   "set_zero_residual_displacement": [[], []]}.get(base)
-            badkw = {"remove_average": [{"section": "x"}, {"section": 2.5}],
-                     "remove_rolling_average": [{"freq_window": None}, {"freq_window": 0}, {"freq_window": "5"}, {"mtype": "velocity", "freq_window": -1}],
-                     "set_zero_residual_velocity": [{"timezone": {"tu": [None, 1.0]}}, {"timezone": {"tu": ["a", None]}}, {"timezone": 3.0},
-                                                    {"timezone": {"tu": [0.0, 0.0]}}],
-                     "szrdv": [{"timezone": {"tu": ["a", None]}}, {"timezone": 3.0}, {"timezone": {"tu": [0.0, 0.0]}},
-                               {"timezone": {"tu": [None, None]}}],
-                     "set_zero_residual_displacement": [{"timezone": {"tu": [0.0, 1.0]}}],
-                     "butter_pass": [{"filter_order": 0}, {"filter_order": "4"}, {"remove_gibbs": "mid", "gibbs_extra": -40}]}.get(base)
+            bad, badkw = k1_tables(n)
+            bad, badkw = bad.get(base), badkw.get(base)
             if bad is not None:
                 i = rng.randrange(len(bad))
                 op["a"] = list(bad[i])
+                if base == "reset_values" and i >= 4:
+                    op["ood"] = True
                 if badkw and (not op["a"] or rng.random() < 0.5):
                     op["kw"] = dict(rng.choice(badkw))
                     if base == "butter_pass" and not op["a"]:
@@ -1388,7 +1571,7 @@ class OpGen(object):
             if others and rng.random() < 0.2:
                 op["a"] = [{"ovalues": rng.choice(others)}]      # b.reset_values(a.values): the array another object hands out
         elif base == "add_constant":
-            op["a"] = [round(rng.choice([-1, 1]) * amp * rng.uniform(0.2, 2.0), 4)]
+            op["a"] = [max(min(round(rng.choice([-1, 1]) * amp * rng.uniform(0.2, 2.0), 4), 1.79e308), -1.79e308)]
             if rng.random() < 0.2:      # a change that is small next to the record (a 'nothing changed' test must be exact)
                 op["a"] = [float(rng.choice([-1, 1]) * amp * rng.choice([1e-6, 1e-8, 1e-10, 1e-4]))]
         elif base == "add_series":
@@ -1611,7 +1794,7 @@ class OpGen(object):
         # response period that is not the first one (division by zero in the oscillator frequencies)
         if self.cfg.get("strict_fp") and rng.random() < 0.5 and isinstance(op.get("v"), dict) and "nd" in op["v"]:
             try:
-                n = len(obj.values)
+                n = _size(obj)
                 dt = float(obj.dt)
                 if how in ("attr:smooth_fa_freqs", "attr:smooth_fa_frequencies", "gen_smooth") and n >= 4:
                     points = int(2 ** int(np.ceil(np.log2(n))) / 2)
